@@ -581,6 +581,9 @@ func famTyped(dir string, seed int64, tier string) {
 				repM.violate("C08", "indirection-changes-stream", "marshalling through a pointer / an interface gives a different stream", desc)
 			}
 		}
+		if i%4 == 1 {
+			apiTapWithOptions(repM, repU, r, t, v, desc)
+		}
 		// ---- C01: round trip through tokens and through bytes ----
 		if skipEmpty {
 			continue // the skip-empty round trip belongs to C16
